@@ -239,3 +239,26 @@ TEXT = {
                      "+ 11-configuration differential replay with pairwise transcript diff",
     },
 }
+
+# how a concrete witness is decided (DESIGN §14 "alarms only for the property that is broken")
+_WITNESS = {
+    "C04": " A witness is a round-trip / canonical-form failure or an acceptance that differs from the reference; "
+           "which error a rejected string gets is C05's business.",
+    "C07": " A witness is a line on which two configurations differ (transcripts of the same seeded corpus, "
+           "grouped by stream and budget) or an in-binary back-end disagreement (agg / body oracles); a value that "
+           "differs from the reference in every configuration alike is not a C07 witness.",
+    "C12": " A witness is the probe's direct oracle: hash_stream / hash_file vs hash_buf of the bytes actually "
+           "delivered (scripted readers, regular files, a FIFO, procfs entries), or the io error not returned.",
+    "C13": " A witness is the probe's direct oracle: the helper's result vs parse-then-compare in the same build "
+           "(independent, re-spelt and near-miss operand pairs, both orders, multi-byte characters).",
+    "C15": " A witness is a violation of the relation between the same operation in the lenient and in the strict "
+           "build of the same tree (check: strict_relation), or a generated hash failing the validity / strict "
+           "round-trip oracle.",
+    "C16": " A witness is the probe's direct oracle: every visitor event vs the matching parser of the same build, "
+           "serialisation vs to_string / store_into_bytes, the real format crates, or a panic.",
+    "C17": " A witness is an undocumented panic or a dying process (localised to one operation), allocator poison "
+           "seen by a reader in memory it never wrote, a Miri report (thorough tier), or a line on which the build "
+           "with `unsafe` differs from the same build without it.",
+}
+for _k, _v in _WITNESS.items():
+    TEXT[_k]["level"] = TEXT[_k]["level"] + _v
